@@ -206,6 +206,26 @@ def fit_case(case):
         except Exception as e:  # noqa
             v.append(violation("fit_raises_on_valid_configuration", {"spec": spec, "error": repr(e)[:300], "y": "label vector in the unused y slot"},
                                exc=type(e).__name__, **where))
+    if form == "float64" and "batch_size" not in spec:
+        # the estimator as scikit-learn's tooling moves it around: a fitted copy (pickle / deepcopy / cloudpickle: what a worker returns, what
+        # is stored in a file) answers exactly like the original and keeps its hyperparameters; an UNFITTED copy fits to the same model
+        from mc import transport
+        k_ = transport.pick((name, sorted(spec.items(), key=str), shape))
+        try:
+            cp_ = transport.roundtrip(model, k_)
+            ok_ = np.array_equal(cp_.predict(Xin), labs) and np.array_equal(cp_.predict_proba(Xin), P) and cp_.score(Xin, y) == model.score(Xin, y) \
+                and repr(cp_.get_params(deep=False).keys()) == repr(model.get_params(deep=False).keys())
+            detail_ = {"transport": k_, "stage": "fitted copy"}
+            if ok_ and spec.get("random_state", 0) is not None:
+                fresh_, _, _ = C.build(name, spec, Xeff, seed)
+                cp2_ = transport.roundtrip(fresh_, k_)
+                cp2_.fit(Xin, y)
+                ok_ = np.array_equal(cp2_.labels_, labs) and np.array_equal(cp2_.predict_proba(Xin), P)
+                detail_ = {"transport": k_, "stage": "unfitted copy, then fit"}
+        except Exception as e:  # noqa
+            ok_, detail_ = False, {"transport": k_, "error": repr(e)[:300]}
+        if not ok_:
+            v.append(violation("transported_estimator_is_not_the_same_model", detail_, **where))
     if getattr(model, "n_iter_", None) != spec.get("max_iter", 3):
         v.append(violation("n_iter_does_not_reflect_max_iter", {"n_iter_": getattr(model, "n_iter_", None)}, **where))
     want = "SGDOptimizer" if spec.get("solver", "adam") == "sgd" else "AdamOptimizer"
